@@ -662,10 +662,9 @@ func c02ServerReaction(r *Run, m *ServerModel) {
 	res := m.resolver(hr)
 	errName := ""
 	for _, s := range m.callsIn(hr, "p9.recv") {
-		if as, ok := r.L.parent(s.Call).(*ast.AssignStmt); ok && len(as.Lhs) == 3 {
-			errName = res.str(as.Lhs[2])
-		}
+		errName = m.resultVarIn(hr, s, 2)
 	}
+	_ = res
 	counts, _ := countCalls(db, info, hr, "p9.send")
 	n := 0
 	for _, ex := range db.Exits[hr] {
@@ -675,11 +674,11 @@ func c02ServerReaction(r *Run, m *ServerModel) {
 		c := counts[ex.Ret]
 		retv := strings.ReplaceAll(r.L.str(ex.Ret.Results[0]), " ", "")
 		// ConnError branch: the comma-ok of the ConnError assertion is true
-		connOK := m.resultName(hr, -1, isAssertTo(info, "p9.ConnError"))
+		connOK, connTruth := m.boolTest(hr, isAssertTo(info, "p9.ConnError"))
 		conn := false
 		for _, p := range ex.St.Paths {
 			for k, v := range p {
-				if k == connOK && v && connOK != "" {
+				if k == connOK && v == connTruth && connOK != "" {
 					conn = true
 				}
 			}
